@@ -269,6 +269,7 @@ type loopInfo struct {
 	con    *LoopContract
 	mods   map[string]bool
 	modAll bool
+	strIters []ssa.Value
 }
 
 func (fc *FuncCtx) heapInit(st *State, name, term string) {
@@ -1051,6 +1052,22 @@ func (fc *FuncCtx) enterLoop(li *loopInfo, b *ssa.BasicBlock, pre *State, reach 
 		}
 		return ""
 	}
+	// implicit invariant of range-over-string loops: the iterator position is >= 0
+	var strIters []ssa.Value
+	for blk := range li.body {
+		for _, in := range blk.Instrs {
+			if nx, ok := in.(*ssa.Next); ok && nx.IsString {
+				strIters = append(strIters, nx.Iter)
+			}
+		}
+	}
+	itHeap := fc.eng.regHeap("IT", "(Array Int Int)")
+	for _, it := range strIters {
+		if tv, ok := fc.val[it]; ok {
+			fc.oblige(label+"/inv-entry", "striter", reach, fmt.Sprintf("(<= 0 (select %s %s))", pre.get(itHeap), tv.T), "string iterator position starts >= 0", nil)
+		}
+	}
+	li.strIters = strIters
 	frameInv := fc.frameInvariants(li)
 	// implicit invariant of range-over-slice loops: the hidden index is >= -1
 	for _, in := range b.Instrs {
@@ -1115,6 +1132,11 @@ func (fc *FuncCtx) enterLoop(li *loopInfo, b *ssa.BasicBlock, pre *State, reach 
 		}
 		tv := fc.freshVal(phi)
 		q.assume(fc.wf(tv.T, phi.Type()))
+	}
+	for _, it := range strIters {
+		if tv, ok := fc.val[it]; ok {
+			q.assume(fmt.Sprintf("(<= 0 (select %s %s))", st.get(itHeap), tv.T))
+		}
 	}
 	headPhi := func(phi *ssa.Phi) TV { return fc.val[phi] }
 	for _, in := range b.Instrs {
@@ -1199,6 +1221,11 @@ func (fc *FuncCtx) backEdge(li *loopInfo, p *ssa.BasicBlock, ec string, st *Stat
 			if q == p {
 				suffix = fmt.Sprintf("#%d", i)
 			}
+		}
+	}
+	for _, it := range li.strIters {
+		if tv, ok := fc.val[it]; ok {
+			fc.oblige(label+"/inv-step", "striter"+suffix, ec, fmt.Sprintf("(<= 0 (select %s %s))", st.get(fc.eng.regHeap("IT", "(Array Int Int)")), tv.T), "string iterator position stays >= 0", nil)
 		}
 	}
 	for _, in := range b.Instrs {
